@@ -78,6 +78,16 @@ impl Model {
     }
 }
 
+fn remember(asked: &mut Vec<(Option<usize>, u32, u128)>, seen: &mut usize, cap: usize, item: (Option<usize>, u32, u128)) {
+    *seen += 1;
+    if asked.len() < cap {
+        asked.push(item);
+    } else if *seen % 8 == 0 {
+        let i = (*seen / 8) % cap;
+        asked[i] = item;
+    }
+}
+
 fn history(cfg: &Cfg, rep: &mut Report, kind: Kind, h: u64, ledgers: usize) {
     let mut rng = Rng::for_history(cfg.seed, "C13", cfg.shard, h);
     rep.begin_history(h);
@@ -95,6 +105,10 @@ fn history(cfg: &Cfg, rep: &mut Report, kind: Kind, h: u64, ledgers: usize) {
     rep.op(format!("deploy {} ledger={}", kind.name(), w.ledger()));
     // every past query ever made: (account or None for total, ledger, answer)
     let mut asked: Vec<(Option<usize>, u32, u128)> = vec![];
+    // answers remembered for the end-of-history re-query; beyond the cap one new answer in eight
+    // replaces a remembered one, so that late ledgers are re-queried too
+    let asked_cap: usize = cfg.pick(12_000, 40_000);
+    let mut asked_seen: usize = 0;
     let mut checkpoint_ledgers: Vec<u32> = vec![];
     let q_votes = |a: usize, l: u32| -> Result<u128, Fail> { invoke(e, &c, "get_votes_at_checkpoint", args!(e, u[a], l)) };
     let q_total = |l: u32| -> Result<u128, Fail> { invoke(e, &c, "get_total_supply_at_checkpoint", args!(e, l)) };
@@ -275,8 +289,8 @@ fn history(cfg: &Cfg, rep: &mut Report, kind: Kind, h: u64, ledgers: usize) {
                     rep.check("past", gv == Ok(wv[x]) && gt == Ok(wt), &format!("C13/past/{}/lookup-inside-a-written-ledger", kind.name()), || {
                         format!("inside ledger {cur} (already written to by {op:?}): votes of {x} at end of ledger {l} = {gv:?} (model {}), total = {gt:?} (model {wt})", wv[x])
                     });
-                    if let (Ok(v), true) = (gv, asked.len() < 6000) {
-                        asked.push((Some(x), l, v));
+                    if let Ok(v) = gv {
+                        remember(&mut asked, &mut asked_seen, asked_cap, (Some(x), l, v));
                     }
                 }
             }
@@ -324,18 +338,14 @@ fn history(cfg: &Cfg, rep: &mut Report, kind: Kind, h: u64, ledgers: usize) {
                     format!("at ledger {now}: votes of {x} at end of ledger {l} = {got:?}, model {} (timeline ledgers {:?})", wv[x], m.timeline.iter().map(|t| t.0).collect::<Vec<_>>())
                 });
                 if let Ok(v) = got {
-                    if asked.len() < 6000 {
-                        asked.push((Some(x), l, v));
-                    }
+                    remember(&mut asked, &mut asked_seen, asked_cap, (Some(x), l, v));
                 }
             }
             let got = q_total(l);
             rep.evaluations += 1;
             rep.check("past", got == Ok(wt), &format!("C13/past/{}/get_total_supply_at_checkpoint", kind.name()), || format!("at ledger {now}: total at end of ledger {l} = {got:?}, model {wt}"));
             if let Ok(v) = got {
-                if asked.len() < 6000 {
-                    asked.push((None, l, v));
-                }
+                remember(&mut asked, &mut asked_seen, asked_cap, (None, l, v));
             }
             rep.count_n("past_queries", n as u64 + 1);
         }
